@@ -364,8 +364,10 @@ impl From<embedded_graphics_core::pixelcolor::Rgb565> for Color {
         } else if rgb == RgbColor::WHITE {
             Color::White
         } else {
-            // choose closest color
-            if (rgb.r() as u16 + rgb.g() as u16 + rgb.b() as u16) > 255 * 3 / 2 {
+            // choose closest color: brighter than half of this depth's white
+            let white = embedded_graphics_core::pixelcolor::Rgb565::WHITE;
+            let half = (white.r() as u16 + white.g() as u16 + white.b() as u16) / 2;
+            if (rgb.r() as u16 + rgb.g() as u16 + rgb.b() as u16) > half {
                 Color::White
             } else {
                 Color::Black
@@ -394,8 +396,10 @@ impl From<embedded_graphics_core::pixelcolor::Rgb555> for Color {
         } else if rgb == RgbColor::WHITE {
             Color::White
         } else {
-            // choose closest color
-            if (rgb.r() as u16 + rgb.g() as u16 + rgb.b() as u16) > 255 * 3 / 2 {
+            // choose closest color: brighter than half of this depth's white
+            let white = embedded_graphics_core::pixelcolor::Rgb555::WHITE;
+            let half = (white.r() as u16 + white.g() as u16 + white.b() as u16) / 2;
+            if (rgb.r() as u16 + rgb.g() as u16 + rgb.b() as u16) > half {
                 Color::White
             } else {
                 Color::Black
